@@ -403,3 +403,18 @@ CHECKS["C18"]["stages"].append(_conv_stage((4, 40), (400, 100), ["--mode", "allo
 CHECKS["C18"]["engine"] = "rapidcheck + per-fault re-execution + convsim"
 CHECKS["C18"]["rule"] += (" Stage conv: for generated conversations (see C03) run 0 counts the allocations the library makes while synchronising (temporary PDU stores incl. >100 PDU payloads, shadow tables, hash-table growth, undo paths); "
                           "a conversation that ends converged must leave the ledger empty; then every allocation index (every k for N <= 1500, else 1500 evenly spaced) is failed once: no crash, and all conversation oracles (either-or of C03, callbacks, convergence) must still hold.")
+
+# C06 tier B: real reader threads against the reload sequence (copy aside, load, swap, diff) — linearizability oracle (ASan) and races (TSan)
+CHECKS["C06"]["stages"] += [
+    {"driver": CONC, "args": ["--mode", "det"], "quick": {"procs": 2, "rc": (80, 80)}, "thorough": {"procs": 8, "rc": (1500, 200), "timeout": 7200}},
+    {"driver": CONC, "args": ["--mode", "thr"], "replay_tries": 30, "replay_need": 1, "ddmin": False,
+     "quick": {"procs": 2, "rc": (20, 100)}, "thorough": {"procs": 6, "rc": (500, 200), "timeout": 7200}},
+    {"driver": CONC_TSAN, "args": ["--mode", "thr"], "replay_tries": 30, "replay_need": 1, "ddmin": False,
+     "quick": {"procs": 3, "rc": (20, 100)}, "thorough": {"procs": 6, "rc": (500, 200), "timeout": 7200}},
+]
+CHECKS["C06"]["engine"] = "convsim + rapidcheck + pthreads (ASan, TSan)"
+CHECKS["C06"]["rule"] += (" Stages conc (tier B): writer programs dominated by the reload sequence of rtr_sync (copy_except_socket into a fresh table, load the new set, swap, notify_diff, free) on both tables, "
+                          "mixed with ordinary adds/removes; (det) battery at every lock release of the writer, (thr, ASan) 2-8 reader threads with the operation-counter linearizability oracle, "
+                          "(thr, TSan) any data race report is a violation.")
+CHECKS["C06"]["level_note"] = ("The conversation stages observe deterministically every state between critical sections; the threaded stages sample OS schedules (a replay reproduces the program, not the schedule); "
+                               "an unlocked access is found by TSan on any overlap, without needing the bad outcome.")
